@@ -75,10 +75,21 @@ def charset(item, flags=0) -> Optional[Set[int]]:
     sc = _consts()
     op, av = item
     allc = set(range(256))
+
+    def fold(cs):
+        if not flags & re.IGNORECASE:
+            return cs
+        out = set(cs)
+        for c in cs:
+            if 65 <= c <= 90:
+                out.add(c + 32)
+            elif 97 <= c <= 122:
+                out.add(c - 32)
+        return out
     if op == sc.LITERAL:
-        return {av} if av < 256 else set()
+        return fold({av}) if av < 256 else set()
     if op == sc.NOT_LITERAL:
-        return allc - {av}
+        return allc - fold({av})
     if op == sc.ANY:
         return allc if flags & re.DOTALL else allc - {10}
     if op == sc.IN:
@@ -95,6 +106,7 @@ def charset(item, flags=0) -> Optional[Set[int]]:
                 out |= _category(a)
             else:
                 return None
+        out = fold(out)
         return (allc - out) if neg else out
     if op == sc.CATEGORY:
         return _category(av)
